@@ -169,9 +169,6 @@ type Machine struct {
 	altB *cpualt.CPU
 }
 
-var busMachinePool []*Machine
-var altMachinePool []*Machine
-
 // memProxy lets a pooled bus keep its attachment while the backing SimMem changes per run.
 type memProxy struct{ m *SimMem }
 
@@ -188,17 +185,18 @@ type pooledBus struct {
 	proxy *memProxy
 }
 
-var pooledBuses []*pooledBus
+var pooledBuses = map[int]*pooledBus{}
 
 // NewBusMachine returns a cpu65c816 on a bus.Bus whose whole 24-bit space is served by mem.
-func NewBusMachine(idx int, mem *SimMem) *Machine {
-	for len(pooledBuses) <= idx {
+func NewBusMachine(env *sim.Env, idx int, mem *SimMem) *Machine {
+	idx += env.Task * 4
+	if pooledBuses[idx] == nil {
 		b, _ := bus.New()
 		px := &memProxy{}
 		if err := b.Attach(px, "sim", 0, 0xFFFFFF); err != nil {
 			panic("harness: " + err.Error())
 		}
-		pooledBuses = append(pooledBuses, &pooledBus{b: b, cpu: &cpu65c816.CPU{}, proxy: px})
+		pooledBuses[idx] = &pooledBus{b: b, cpu: &cpu65c816.CPU{}, proxy: px}
 	}
 	pb := pooledBuses[idx]
 	pb.proxy.m = mem
@@ -215,16 +213,16 @@ type pooledAlt struct {
 	// holeLo/holeHi: range left as open bus in the current configuration
 }
 
-var pooledAlts []*pooledAlt
+var pooledAlts = map[int]*pooledAlt{}
 
 // NewAltMachine returns a cpualt.CPU whose bus closures are served by mem. If holeHi>holeLo,
 // the 16-byte blocks of [holeLo,holeHi] are left as open bus (the library's default closures).
-func NewAltMachine(idx int, mem *SimMem, holeLo, holeHi uint32) *Machine {
-	for len(pooledAlts) <= idx {
+func NewAltMachine(env *sim.Env, idx int, mem *SimMem, holeLo, holeHi uint32) *Machine {
+	idx += env.Task * 4
+	if pooledAlts[idx] == nil {
 		c := &cpualt.CPU{}
 		c.Init()
-		px := &memProxy{}
-		pooledAlts = append(pooledAlts, &pooledAlt{cpu: c, proxy: px})
+		pooledAlts[idx] = &pooledAlt{cpu: c, proxy: &memProxy{}}
 	}
 	pa := pooledAlts[idx]
 	pa.proxy.m = mem
@@ -267,11 +265,12 @@ type SysMachine struct {
 	px   *memProxy
 }
 
-var pooledSystems []*SysMachine
+var pooledSystems = map[int]*SysMachine{}
 
-func NewSysMachine(idx int, hole *SimMem) (*SysMachine, error) {
-	for len(pooledSystems) <= idx {
-		pooledSystems = append(pooledSystems, &SysMachine{S: &emulator.System{}, px: &memProxy{}})
+func NewSysMachine(env *sim.Env, idx int, hole *SimMem) (*SysMachine, error) {
+	idx += env.Task * 4
+	if pooledSystems[idx] == nil {
+		pooledSystems[idx] = &SysMachine{S: &emulator.System{}, px: &memProxy{}}
 	}
 	sm := pooledSystems[idx]
 	sm.Hole = hole
